@@ -313,7 +313,7 @@ func runC05(c *Ctx) {
 			if b == fn.Recover {
 				continue
 			}
-			ret, ok := b.Instrs[len(b.Instrs)-1].(*ssa.Return)
+			ret, ok := core.AsReturn(b.Instrs[len(b.Instrs)-1])
 			if !ok {
 				continue
 			}
